@@ -3,6 +3,7 @@ package chain
 import (
 	"bytes"
 	"context"
+	sdkmath "cosmossdk.io/math"
 	"encoding/hex"
 	"fmt"
 	"math/big"
@@ -54,6 +55,7 @@ type EthTx struct {
 	SignChainID  int64 `json:"sign_chain_id,omitempty"` // sign for another EIP-155 id
 	Unprotected  bool  `json:"unprotected,omitempty"`   // homestead signature (legacy only)
 	DeclaredFrom int   `json:"declared_from,omitempty"` // 1+key index declared as sender instead of the signer
+	NoExtOpt     bool  `json:"no_ext_opt,omitempty"`    // wrap without the (optional) ExtensionOptionsEthereumTx: the other canonical shape
 	DeclaredLong bool  `json:"declared_long,omitempty"` // declare LongAddr(From): a 32-byte account address ending in the signer's 20 bytes
 	TamperSig    bool  `json:"tamper_sig,omitempty"`    // flip a bit of S after signing
 	TamperData   bool  `json:"tamper_data,omitempty"`   // change payload after signing
@@ -171,6 +173,10 @@ func (e EthTx) Build(txCfg client.TxConfig) ([]byte, *ethtypes.Transaction, erro
 		bz, err := WrapEthTxFrom(txCfg, tx, LongAddr(e.From).String())
 		return bz, tx, err
 	}
+	if e.NoExtOpt {
+		bz, err := wrapEthTxNoExt(txCfg, tx, sdk.AccAddress(from.Bytes()).String())
+		return bz, tx, err
+	}
 	bz, err := WrapEthTx(txCfg, tx, from)
 	return bz, tx, err
 }
@@ -184,6 +190,25 @@ func LongAddr(k int) sdk.AccAddress {
 // WrapEthTx wraps a signed Ethereum tx into the canonical Cosmos tx bytes.
 func WrapEthTx(txCfg client.TxConfig, tx *ethtypes.Transaction, from common.Address) ([]byte, error) {
 	return WrapEthTxFrom(txCfg, tx, sdk.AccAddress(from.Bytes()).String())
+}
+
+// wrapEthTxNoExt wraps like MsgEthereumTx.BuildTx but leaves the extension option out (the lane predicate allows that).
+func wrapEthTxNoExt(txCfg client.TxConfig, tx *ethtypes.Transaction, from string) ([]byte, error) {
+	ethBz, err := tx.MarshalBinary()
+	if err != nil {
+		return nil, err
+	}
+	msg := &evmtypes.MsgEthereumTx{MarshalledTx: ethBz, From: from}
+	b := txCfg.NewTxBuilder()
+	if err := b.SetMsgs(msg); err != nil {
+		return nil, err
+	}
+	fee := new(big.Int).Mul(tx.GasFeeCap(), new(big.Int).SetUint64(tx.Gas()))
+	if fee.Sign() > 0 {
+		b.SetFeeAmount(sdk.NewCoins(sdk.NewCoin(Denom, sdkmath.NewIntFromBigInt(fee))))
+	}
+	b.SetGasLimit(tx.Gas())
+	return txCfg.TxEncoder()(b.GetTx())
 }
 
 // WrapEthTxFrom is WrapEthTx with the declared sender given as the string that goes into the message.
